@@ -3,6 +3,7 @@
    of the node with that identifier. Complements `rtCDX_forest` (identifiers, roots, edges). -/
 import Protobom.Proofs.NestRT
 import Protobom.Proofs.CdxNodes
+import Protobom.Proofs.ForestNodup
 
 namespace Protobom.Cdx
 open Protobom
@@ -361,5 +362,174 @@ theorem forest_preorder_covers (children : String → List String) (ht : String 
         rw [show T children c0 ht t = tree children c0 (ht t + 1) t from rfl, tree_refs children c0 hid hk] at this
         rw [show T children c0 ht x = tree children c0 (ht x + 1) x from rfl, tree_bomRef children c0 hid hk] at this
         exact this
+
+/-! ### what the serializer emits on a containment forest: every node exactly once -/
+
+/-- **each node exactly once**: on a containment forest with one root, the references of the
+    emitted components — the metadata component followed by the component forest, nested
+    components included — are exactly the identifiers of the document, without repetition
+    (identifiers that look generated are blanked by `clearAutoRefs`, hence the last hypothesis) -/
+theorem serCDX_forest_refs (d : Document) (md : Metadata) (nl : NodeList) (root : String) (rootNode : Node)
+    (lcs : List Lifecycle) (p1 : Pass1) (ht : String → Nat)
+    (hmd : d.metadata = some md) (hnl : d.nodeList = some nl) (hroots : nl.roots = [root])
+    (hroot : nl.getNodeByID root = some rootNode) (hrid : rootNode.id = root)
+    (hlc : serCDX.mapLifecycles md.docTypes = .ok lcs)
+    (hp1 : pass1 (fun id => (dictOf nl.nodes).any (·.1 = id)) nl.edges = .ok p1)
+    (F : Forest (childrenOf p1) ht (fun x => ((dictOf nl.nodes).lookup x).isSome = true) [root])
+    (hht : ∀ x, ht x < (dictOf nl.nodes).length + 2)
+    (hids : ∀ x, ((dictOf nl.nodes).lookup x).isSome = true → isAutoRef x = false) :
+    ∃ (b : Bom) (rootC : Component), serCDX d = .ok b ∧ b.metaComponent = some rootC ∧
+      (rootC.refs ++ refsL b.components).Nodup ∧
+      ∀ x, x ∈ rootC.refs ++ refsL b.components ↔ x ∈ nl.ids := by
+  obtain ⟨b, placed, hser, hpl, hcomps, _, hmeta⟩ :=
+    serCDX_forest d md nl root rootNode lcs p1 ht (.mk "" "" "" "" "" "" "" "" none [] [] none [])
+      hmd hnl hroots hroot hrid hlc hp1 F hht
+  let tops := ((dictOf nl.nodes).filter (fun kv => decide (kv.1 ∉ placed))).map (·.1)
+  let preT := fun t => pre (childrenOf p1) (ht t + 1) t
+  let D : String → Prop := fun x => ((dictOf nl.nodes).lookup x).isSome = true
+  let c0' := comp0 (dictOf nl.nodes)
+  have hshape : ∀ x, (c0' x).bomRef = x ∧ (c0' x).kids = [] := comp0_shape nl.nodes
+  have hTs : ((dictOf nl.nodes).filter (fun kv => decide (kv.1 ∉ placed))).map
+      (fun kv => T (childrenOf p1) (fun x => ((dictOf nl.nodes).lookup x).getD (.mk "" "" "" "" "" "" "" "" none [] [] none [])) ht kv.1) =
+      tops.map (T (childrenOf p1) c0' ht) := by
+    simp only [tops, List.map_map]
+    apply List.map_congr_left
+    intro kv hkv
+    have hD : D kv.1 := lookup_isSome_of_mem _ kv (List.mem_filter.mp hkv).1
+    simp only [Function.comp, T]
+    apply tree_congr (childrenOf p1) _ _ D F.dom _ _ _ hD
+    intro x hx
+    simp only [c0', comp0]
+    cases h : (dictOf nl.nodes).lookup x with
+    | none => simp only [D, h] at hx; cases hx
+    | some c => rfl
+  rw [hTs] at hcomps
+  have htopsD : ∀ t ∈ tops, D t := by
+    intro t ht'
+    simp only [tops, List.mem_map] at ht'
+    obtain ⟨kv, hkv, rfl⟩ := ht'
+    exact lookup_isSome_of_mem _ kv (List.mem_filter.mp hkv).1
+  have hrefs : refsL (tops.map (T (childrenOf p1) c0' ht)) = tops.flatMap preT := by
+    rw [refsL_map]
+    apply flatMap_congr'
+    intro t _
+    exact tree_refs (childrenOf p1) c0' (fun x => (hshape x).1) (fun x => (hshape x).2) (ht t + 1) t
+  have hnoauto : NoAuto (refsL (tops.map (T (childrenOf p1) c0' ht))) := by
+    rw [hrefs]
+    intro r hr
+    rw [List.mem_flatMap] at hr
+    obtain ⟨t, ht', hrt⟩ := hr
+    exact hids r (pre_mem_dom (childrenOf p1) D F.dom _ t r (htopsD t ht') hrt)
+  have hrootC : ∀ c : Component, c = (if md.name ≠ "" ∧ (nodeToComponent rootNode).name = ""
+      then (nodeToComponent rootNode).withName md.name else nodeToComponent rootNode) → c.refs = [root] := by
+    intro c hc
+    have h0 : (nodeToComponent rootNode).refs = [root] := by
+      simp [nodeToComponent, Component.refs, refsL, hrid]
+    rw [hc]
+    split
+    · cases hcc : nodeToComponent rootNode with
+      | mk r _ _ _ _ _ _ _ _ _ _ _ ks =>
+        rw [hcc] at h0
+        simpa [Component.withName, Component.refs] using h0
+    · exact h0
+  have hDroot : D root := (dictOf_known nl.nodes root).mpr (List.mem_map.mpr ⟨rootNode, by
+      unfold NodeList.getNodeByID at hroot
+      exact List.mem_of_find?_eq_some hroot, hrid⟩)
+  have hall : (if md.name ≠ "" ∧ (nodeToComponent rootNode).name = ""
+      then (nodeToComponent rootNode).withName md.name else nodeToComponent rootNode).refs ++ refsL b.components =
+      root :: tops.flatMap preT := by
+    rw [hrootC _ rfl, hcomps, clearAutoL_refs _ hnoauto, hrefs]; rfl
+  refine ⟨b, _, hser, hmeta, ?_, ?_⟩
+  · rw [hall]
+    exact forest_preorder_nodup (childrenOf p1) ht root (dictOf nl.nodes) (dictOf_keys_nodup nl.nodes) F
+      ((dictOf nl.nodes).length + 2) hht placed hpl
+  · intro x
+    rw [hall, forest_preorder_covers (childrenOf p1) ht root (dictOf nl.nodes) hDroot F _ hht placed hpl x]
+    exact dictOf_known nl.nodes x
+
+/-! ### no dependency entry refers to an element that is not emitted -/
+
+theorem depTargets_known (known : String → Bool) (ts : List String) (acc : Option (List String)) (r : List String)
+    (hacc : ∀ a, acc = some a → ∀ t ∈ a, known t = true)
+    (h : ts.foldl (fun (a : Option (List String)) t =>
+      a.bind fun ts => if t ∈ ts then some ts else if known t then some (ts ++ [t]) else none) acc = some r) :
+    ∀ t ∈ r, known t = true := by
+  induction ts generalizing acc with
+  | nil => simp only [List.foldl_nil] at h; exact hacc r h
+  | cons t ts ih =>
+    simp only [List.foldl_cons] at h
+    apply ih _ _ h
+    intro a ha x hx
+    cases acc with
+    | none => simp at ha
+    | some a0 =>
+      simp only [Option.bind_some] at ha
+      by_cases h1 : t ∈ a0
+      · simp only [h1, if_true, Option.some.injEq] at ha
+        rw [← ha] at hx; exact hacc a0 rfl x hx
+      · simp only [h1, if_false] at ha
+        by_cases h2 : known t = true
+        · simp only [h2, if_true, Option.some.injEq] at ha
+          rw [← ha] at hx
+          rcases List.mem_append.mp hx with h' | h'
+          · exact hacc a0 rfl x h'
+          · simp only [List.mem_singleton] at h'; rw [h']; exact h2
+        · simp [h2] at ha
+
+/-- every dependency entry of the first pass has a known source and known targets only -/
+theorem pass1_deps_known (known : String → Bool) (edges : List Edge) (p1 : Pass1)
+    (h : pass1 known edges = .ok p1) : ∀ st ∈ p1.deps, known st.1 = true ∧ ∀ t ∈ st.2, known t = true := by
+  unfold pass1 at h
+  have gen : ∀ (es : List Edge) (acc : Outcome Pass1) (r : Pass1),
+      (∀ a, acc = .ok a → ∀ st ∈ a.deps, known st.1 = true ∧ ∀ t ∈ st.2, known t = true) →
+      es.foldl (fun (acc : Outcome Pass1) e =>
+        acc.bind fun st =>
+          if !known e.src then .err
+          else if e.ty = 5 then
+            if e.tos.all known then .ok { st with children := addChildren st.children e.src e.tos } else .err
+          else if e.ty = 10 then
+            let r := e.tos.foldl (fun (a : Option (List String)) t =>
+              a.bind fun ts => if t ∈ ts then some ts else if known t then some (ts ++ [t]) else none) (some [])
+            match r with
+            | some ts => .ok { st with deps := st.deps ++ [(e.src, ts)] }
+            | none => .err
+          else .ok st) acc = .ok r →
+      ∀ st ∈ r.deps, known st.1 = true ∧ ∀ t ∈ st.2, known t = true := by
+    intro es
+    induction es with
+    | nil => intro acc r hacc hr; simp only [List.foldl_nil] at hr; exact hacc r hr
+    | cons e es ih =>
+      intro acc r hacc hr
+      simp only [List.foldl_cons] at hr
+      apply ih _ r _ hr
+      intro a ha y hy
+      cases acc with
+      | err => simp [Outcome.bind] at ha
+      | panic s => simp [Outcome.bind] at ha
+      | ok st =>
+        simp only [Outcome.bind] at ha
+        by_cases hk : known e.src = true
+        · simp only [hk, Bool.not_true, Bool.false_eq_true, if_false] at ha
+          by_cases h5 : e.ty = 5
+          · simp only [h5, if_true] at ha
+            split at ha
+            · cases ha; exact hacc _ rfl y hy
+            · cases ha
+          · simp only [h5, if_false] at ha
+            by_cases h10 : e.ty = 10
+            · simp only [h10, if_true] at ha
+              split at ha
+              · rename_i ts hts
+                cases ha
+                rcases List.mem_append.mp hy with h' | h'
+                · exact hacc _ rfl y h'
+                · simp only [List.mem_singleton] at h'
+                  rw [h']
+                  exact ⟨hk, depTargets_known known e.tos (some []) ts (by intro a ha t ht; cases ha; cases ht) hts⟩
+              · cases ha
+            · simp only [h10, if_false] at ha
+              cases ha; exact hacc _ rfl y hy
+        · simp [hk] at ha
+  exact gen edges (.ok {}) p1 (by intro a ha st hst; cases ha; cases hst) h
 
 end Protobom.Cdx
